@@ -263,6 +263,33 @@ def rule_results(chk, fb, eps):
                        key="%s:%s#%d%s" % (d, nm, n, "" if used["checked"] else ":" + verdict))
 
 
+def rule_partial_writes(chk, fb, eps):
+    rp = chk.rule(
+        "C13.c.partial",
+        "real sinks are written with write_all: nothing on the save call graph calls the partial-write primitive io::Write::write on a file, BufWriter, compound-file stream or caller-supplied writer (a short or zero-length write would pass for success)",
+        floor=1,
+    )
+    roots = list(eps) + [d for d, b in fb.mir.items() if b["kind"] == "Fn" and b.get("vis") == "pub" and d.startswith("writer::") and d.split("::")[-1].startswith("write_writer")]
+    seen = set()
+    n = 0
+    for root in roots:
+        for d in sorted(crate_reach(fb, root)):
+            if d in seen:
+                continue
+            seen.add(d)
+            b = fb.mir[d]
+            for bi, t in fb.calls_in(b):
+                f = t.get("orig", t.get("fn", ""))
+                if f == "std::io::Write::write" or t.get("fn", "").endswith("as std::io::Write>::write"):
+                    sink = fb.ty(b["locals"][t["args"][0]["p"]["l"]]["t"]) if t["args"] and "p" in t["args"][0] else ""
+                    if any(s_ in sink for s_ in INMEM) and "Stream" not in sink:
+                        continue
+                    chk.touch(d)
+                    chk.ob(rp, "%s:write" % d, False, where="%s:%s" % (b["file"], t["ln"]), detail="partial write on `%s`" % sink[:60])
+                    n += 1
+    chk.ob(rp, "no-partial-writes", n == 0, where="src/writer", detail="%d function(s) on the save call graph inspected; partial writes on real sinks: %d" % (len(seen), n))
+
+
 def consumers(fb, b, fl, bi):
     """How is the result of the call in block bi consumed?"""
     res = b["blocks"][bi]["t"]["dest"]["l"]
@@ -309,6 +336,7 @@ def run(chk, fb, tier):
     rule_temp_rename(chk, fb, eps)
     rule_flush(chk, fb, eps)
     rule_results(chk, fb, eps)
+    rule_partial_writes(chk, fb, eps)
     chk.assume("fs::rename within one directory replaces the destination atomically (POSIX rename)")
     chk.assume("BufWriter::drop flushes but discards errors; writes into Cursor<Vec<u8>> cannot fail")
     chk.note("not decided: process kills at arbitrary instants (crash timing), byte offsets of failing writes")
